@@ -83,7 +83,10 @@ def generate(R, tier):
         m = R.choice(["pass", "same", "first", "last"])
         if m != "pass":
             script = [{"method": "choice", "mode": m, "index": R.randrange(n)}]
-    return {"algo": name, "n": n, "k": k, "ebv": ebv, "con": R.random() < 0.35, "eq": (name in ("hc", "sorting_hc", "ga.subset", "ga.real") and R.random() < 0.35), "ngen": R.randint(1, 4), "pop": R.choice([4, 6, 8, 12]),
+    return {"algo": name, "n": n, "k": k, "ebv": ebv, "obj_wt": R.choice([None, None, 1.0, -1.0, 2.5, -0.5]), "caps": ({"grp": [R.randint(0, 1) for _ in range(n)], "cap": [R.randint(0, 2), R.randint(0, 2)], "flag": [R.randint(0, 1) for _ in range(n)],
+                      "quota": (R.randint(0, k) if R.random() < 0.5 else None)}
+                     if (kind == "subset" and R.random() < (0.6 if name in ("hc", "sorting_hc") else 0.2)) else None),
+            "con": R.random() < 0.35, "eq": (name in ("hc", "sorting_hc", "ga.subset", "ga.real") and R.random() < 0.35), "ngen": R.randint(1, 4), "pop": R.choice([4, 6, 8, 12]),
             "seed": R.randrange(1 << 31), "mode": mode, "rngseed": R.randrange(1 << 30), "script": script, "entropy_world": R.randrange(1000)}
 
 
@@ -100,12 +103,20 @@ def shrink(sc):
         c = copy.deepcopy(sc)
         c["eq"] = False
         yield c
+    if sc.get("caps"):
+        c = copy.deepcopy(sc)
+        c["caps"] = None
+        yield c
+    if sc.get("obj_wt") is not None:
+        c = copy.deepcopy(sc)
+        c["obj_wt"] = None
+        yield c
     for key, small in (("ngen", 1), ("pop", 4)):
         if sc[key] > small:
             c = copy.deepcopy(sc)
             c[key] = small
             yield c
-    if sc["n"] > 3:
+    if sc["n"] > 3 and not sc.get("caps"):
         c = copy.deepcopy(sc)
         c["n"] -= 1
         c["ebv"] = c["ebv"][:-1]
@@ -173,7 +184,7 @@ def execute(sc):
     name = sc["algo"]
     cls, kind, nobj, has_rng, ga = ALGOS[name]
     ebv = numpy.array(sc["ebv"], dtype=float)
-    prob = world.ebv_problem(kind, ebv, nobj=nobj, ndecn=sc["k"] if kind == "subset" else None, con=sc["con"], eq=sc.get("eq", False))
+    prob = world.ebv_problem(kind, ebv, nobj=nobj, ndecn=sc["k"] if kind == "subset" else None, con=sc["con"] and not sc.get("caps"), eq=sc.get("eq", False), obj_wt=sc.get("obj_wt"), caps=sc.get("caps") or False)
     V, log, faults, probes = [], [], {}, {}
     C = cls.__name__ + ".minimize"
     kw = {}
@@ -197,7 +208,7 @@ def execute(sc):
             if orig is not None:
                 setattr(mod, "minimize", orig)
     except Exception as e:
-        if (sc["con"] or sc.get("eq")) and record:
+        if (sc["con"] or sc.get("eq") or sc.get("caps")) and record:
             # pymoo reports no solution (X is None) when the final population holds no feasible member; C06 speaks of
             # returned solutions, so a run that returns none is recorded, not judged
             feas = False
@@ -260,7 +271,7 @@ def execute(sc):
                                   (i, F[i].tolist(), cvs[i], j, F[j].tolist(), cvs[j])))
                     return _out(sc, V, log, faults, probes, True, g)
     # exhaustive sorting optimiser: brute-force optimum of a separable single-objective problem
-    if name == "sorting" and not sc["con"] and not sc.get("eq") and sc["n"] <= 10:
+    if name == "sorting" and not sc["con"] and not sc.get("eq") and not sc.get("caps") and sc["n"] <= 10:
         best = min(float(prob.evalfn(numpy.array(c))[0].sum()) for c in itertools.combinations(range(sc["n"]), sc["k"]))
         got = float(F[0].sum())
         if got > best + 1e-12 * (1 + abs(best)):
@@ -289,7 +300,8 @@ def execute(sc):
 
 
 def _out(sc, V, log, faults, probes, ran, g):
-    trace = "%s|con=%s%s|%s|%s|n%s|k%s" % (sc["algo"], sc["con"], "+eq" if sc.get("eq") else "", sc["mode"], [r["mode"] for r in sc["script"]], "S" if sc["n"] <= 5 else "L",
+    trace = "%s|con=%s%s%s|w%s|%s|%s|n%s|k%s" % (sc["algo"], sc["con"], "+eq" if sc.get("eq") else "", "+caps" if sc.get("caps") else "",
+                                           "-" if (sc.get("obj_wt") or 1) < 0 else "+", sc["mode"], [r["mode"] for r in sc["script"]], "S" if sc["n"] <= 5 else "L",
                                          "=n" if sc["k"] == sc["n"] else ("1" if sc["k"] == 1 else "m"))
     return {"violations": V, "log": log, "trace": trace, "nontrivial": ran, "faults": faults, "probes": probes,
             "sim": {"optimiser_runs": 1, "pymoo_generations": probes.get("generations_observed", 0)}}
